@@ -163,7 +163,7 @@ def main():
                                        "independent oracles judge every observed execution"}],
         "checks": checks,
         "not_applicable": na,
-        "notes": "Runtime monitoring only. Exit 0 held / 1 VIOLATION / 2 INCONCLUSIVE. Known findings: known_findings.json. Every workload family re-uses its objects across steps (state carried across calls is part of what is observed). The per-check texts give the core of each monitor; the workload dimensions added while hardening (value types and widths, sizes, provenance, re-use, siblings, entry points, names, ...) are listed in DESIGN.md 8-8.4 and in each evidence file's rule text. Self-validation: selftest/ (188 mutants), seeded/ (140 independent seeded changes in six rounds; 136 caught, 4 documented misses), benign/ (80 behaviour-preserving patches, all silent), tools/recheck_seeds.sh, tools/recheck_benign.sh.",
+        "notes": "Runtime monitoring only. Exit 0 held / 1 VIOLATION / 2 INCONCLUSIVE. Known findings: known_findings.json. Every workload family re-uses its objects across steps (state carried across calls is part of what is observed). The per-check texts give the core of each monitor; the workload dimensions added while hardening (value types and widths, sizes, provenance, re-use, siblings, entry points, names, ...) are listed in DESIGN.md 8-8.6 and in each evidence file's rule text. Self-validation: selftest/ (188 mutants), seeded/ (153 independent seeded changes in seven rounds; 149 caught, 4 documented misses), benign/ (80 behaviour-preserving patches, all silent), tools/recheck_seeds.sh, tools/recheck_benign.sh.",
     }
     with open(os.path.join(HERE, "MANIFEST.json"), "w") as f:
         json.dump(man, f, indent=1)
